@@ -115,13 +115,16 @@ func requiredPropagation(r *core.Run) {
 	}
 	info := pk.TypesInfo
 	initOK, pkOK, storeOK, setOK := false, false, false, false
+	flag := requiredFlag(info, pk, fd) // the local that starts as the declared Required flag, whatever it is called
+	initOK = flag != nil
+	isFlag := func(e ast.Expr) bool {
+		id, ok := core.Unparen(e).(*ast.Ident)
+		return ok && flag != nil && (info.Uses[id] == flag || info.Defs[id] == flag)
+	}
 	ast.Inspect(core.TreeBody(pk, fd, "buildField"), func(n ast.Node) bool {
 		switch x := n.(type) {
 		case *ast.AssignStmt:
-			if len(x.Lhs) == 1 && core.ExprStr(x.Lhs[0]) == "required" {
-				if x.Tok == token.DEFINE && core.ExprStr(x.Rhs[0]) == "node.Schema.Required" {
-					initOK = true
-				}
+			if len(x.Lhs) == 1 && isFlag(x.Lhs[0]) {
 				if x.Tok == token.ASSIGN && core.ExprStr(x.Rhs[0]) == "true" {
 					f := rules.FactsAt(info, fd.Body, x)
 					for k := range f.True {
@@ -132,7 +135,7 @@ func requiredPropagation(r *core.Run) {
 				}
 			}
 		case *ast.IfStmt:
-			if core.ExprStr(x.Cond) == "required" {
+			if isFlag(x.Cond) {
 				ast.Inspect(x.Body, func(m ast.Node) bool {
 					switch y := m.(type) {
 					case *ast.AssignStmt:
@@ -218,7 +221,13 @@ func ruleConstants(r *core.Run) {
 	// key patterns
 	ast.Inspect(core.TreeBody(pk, fd), func(n ast.Node) bool {
 		as, ok := n.(*ast.AssignStmt)
-		if !ok || len(as.Lhs) != 1 || !strings.HasSuffix(core.ExprStr(as.Lhs[0]), "stringRules.Pattern") {
+		if !ok || len(as.Lhs) != 1 {
+			return true
+		}
+		// an assignment to the Pattern of a *validate.StringRules held in a local, whatever it is called
+		if ls, isSel := core.Unparen(as.Lhs[0]).(*ast.SelectorExpr); !isSel || ls.Sel.Name != "Pattern" || !strings.HasSuffix(core.TypeStr(info.TypeOf(ls.X)), "validate.StringRules") {
+			return true
+		} else if _, isID := core.Unparen(ls.X).(*ast.Ident); !isID {
 			return true
 		}
 		label := clauseLabel(info, fd, enclosingClause(fd, as))
@@ -359,7 +368,7 @@ func boundNarrowing(r *core.Run) {
 			return true
 		}
 		label := clauseLabel(info, fd, enclosingClause(fd, kv))
-		o := r.Add("R-FLOW/F2b", fmt.Sprintf("j5convert.buildField | %s | %s: %s", label, core.ExprStr(kv.Key), core.ExprStr(kv.Value)), kv.Pos(), "narrowing of a declared bound "+core.ExprStr(kv.Value))
+		o := r.Add("R-FLOW/F2b", fmt.Sprintf("j5convert.buildField | %s | %s: %s", label, core.ExprStr(kv.Key), core.NormExpr(info, kv.Value)), kv.Pos(), "narrowing of a declared bound "+core.ExprStr(kv.Value))
 		f := rules.FactsAt(info, fd.Body, kv)
 		guarded := false
 		for k := range f.False {
